@@ -894,16 +894,43 @@ func ruleSliceOrder(c *Ctx, p *core.Program, rule string) {
 		}
 		return nil
 	}
-	sources := func(v ssa.Value) map[*ssa.Call]bool {
+	// helperResult: v is result #i of a static call of a proto helper
+	helperResult := func(v ssa.Value) (*ssa.Function, *ssa.Call, int) {
+		ex, ok := v.(*ssa.Extract)
+		if !ok {
+			return nil, nil, 0
+		}
+		cl, ok := ex.Tuple.(*ssa.Call)
+		if !ok {
+			return nil, nil, 0
+		}
+		g := core.StaticFn(cl)
+		if g == nil || g.Blocks == nil || pkgOf(g) == nil || pkgOf(g).Path() != core.PkgProto {
+			return nil, nil, 0
+		}
+		return g, cl, ex.Index
+	}
+	var sourcesD func(v ssa.Value, d int) map[*ssa.Call]bool
+	sourcesD = func(v ssa.Value, d int) map[*ssa.Call]bool {
 		out := map[*ssa.Call]bool{}
 		core.DependsOn(v, func(x ssa.Value) bool {
 			if cl := isSearch(x); cl != nil {
 				out[cl] = true
 			}
+			if g, _, i := helperResult(x); g != nil && d < 2 {
+				for _, b := range g.Blocks {
+					if ret, ok := b.Instrs[len(b.Instrs)-1].(*ssa.Return); ok && i < len(ret.Results) {
+						for k := range sourcesD(ret.Results[i], d+1) {
+							out[k] = true
+						}
+					}
+				}
+			}
 			return false
 		}, false)
 		return out
 	}
+	sources := func(v ssa.Value) map[*ssa.Call]bool { return sourcesD(v, 0) }
 	n := 0
 	for _, fn := range p.Funcs() {
 		if pkgOf(fn) == nil || pkgOf(fn).Path() != core.PkgProto || fn.Blocks == nil {
@@ -950,45 +977,85 @@ func ruleSliceOrder(c *Ctx, p *core.Program, rule string) {
 					return true
 				}
 				// edges of comparisons between the two results (either polarity orders them on one side)
-				var ordered []core.Edge
-				for _, h := range fn.Blocks {
-					ifi, ok := h.Instrs[len(h.Instrs)-1].(*ssa.If)
-					if !ok {
-						continue
-					}
-					bo, ok := ifi.Cond.(*ssa.BinOp)
-					if !ok {
-						continue
-					}
-					var loLeft bool
-					switch {
-					case from(bo.X, lo) && from(bo.Y, hi):
-						loLeft = true
-					case from(bo.X, hi) && from(bo.Y, lo):
-						loLeft = false
-					default:
-						continue
-					}
-					// which successor implies lo <= hi (or lo < hi)
-					succ := -1
-					switch bo.Op {
-					case token.LSS, token.LEQ: // X < Y true
-						if loLeft {
-							succ = 0
-						} else {
-							succ = 1
+				var orderedIn func(f *ssa.Function, d int) []core.Edge
+				orderedIn = func(f *ssa.Function, d int) []core.Edge {
+					var ordered []core.Edge
+					for _, h := range f.Blocks {
+						ifi, ok := h.Instrs[len(h.Instrs)-1].(*ssa.If)
+						if !ok {
+							continue
 						}
-					case token.GTR, token.GEQ:
-						if loLeft {
-							succ = 1
-						} else {
-							succ = 0
+						bo, ok := ifi.Cond.(*ssa.BinOp)
+						if !ok {
+							continue
+						}
+						var loLeft bool
+						switch {
+						case from(bo.X, lo) && from(bo.Y, hi):
+							loLeft = true
+						case from(bo.X, hi) && from(bo.Y, lo):
+							loLeft = false
+						default:
+							continue
+						}
+						// which successor implies lo <= hi (or lo < hi)
+						succ := -1
+						switch bo.Op {
+						case token.LSS, token.LEQ: // X < Y true
+							if loLeft {
+								succ = 0
+							} else {
+								succ = 1
+							}
+						case token.GTR, token.GEQ:
+							if loLeft {
+								succ = 1
+							} else {
+								succ = 0
+							}
+						}
+						if succ >= 0 {
+							ordered = append(ordered, core.Edge{B: h, Succ: succ})
 						}
 					}
-					if succ >= 0 {
-						ordered = append(ordered, core.Edge{B: h, Succ: succ})
+					// a validity flag returned by the helper that produced the bounds:
+					// `open, closing, ok := c.parens(); if !ok {...}`
+					for _, h := range f.Blocks {
+						ifi, ok := h.Instrs[len(h.Instrs)-1].(*ssa.If)
+						if !ok || d > 0 {
+							continue
+						}
+						cond, pol := core.StripNot(ifi.Cond)
+						g, _, j := helperResult(cond)
+						if g == nil {
+							continue
+						}
+						og := orderedIn(g, d+1)
+						all, any := true, false
+						for _, gb := range g.Blocks {
+							ret, ok := gb.Instrs[len(gb.Instrs)-1].(*ssa.Return)
+							if !ok || j >= len(ret.Results) {
+								continue
+							}
+							if k, isC := ret.Results[j].(*ssa.Const); isC && k.Value != nil && k.Value.String() == "false" {
+								continue
+							}
+							any = true
+							if len(og) == 0 || !core.OnlyViaEdges(g, ret, og) {
+								all = false
+							}
+						}
+						if any && all {
+							succ := 0
+							if !pol {
+								succ = 1
+							}
+							ordered = append(ordered, core.Edge{B: h, Succ: succ})
+						}
 					}
+					return ordered
 				}
+				ordered := orderedIn(fn, 0)
 				if len(ordered) > 0 && core.OnlyViaEdges(fn, sl, ordered) {
 					c.R.Ok(rule, key, cfg, p.Pos(sl.Pos()), "bounds ordered by a comparison on every path")
 				} else {
